@@ -23,6 +23,7 @@ package internal
 //@ spec func binOverlaps(k uint32, beg int, end int) bool = binBeg(k) < end && beg < binEnd(k)
 //@ spec func validIv(beg int, end int) bool = 0 <= beg && beg < end && end <= 536870912
 //@ spec func maxBin() uint32 = 37448
+//@ opaque spec func ovl(k uint32, beg int, end int) bool = k <= maxBin() && binOverlaps(k, beg, end)
 
 //@ func BinFor
 //@   mode bv
@@ -42,6 +43,7 @@ package internal
 //@ spec func lvlOfShift(s uint32) int = (29 - int(s)) / 3
 //@ func OverlappingBinsFor
 //@   mode bv
+//@   anymode
 //@   props C16, C04
 //@   terminates
 //@   requires validIv(beg, end)
@@ -68,6 +70,7 @@ package internal
 //@   ensures[C16,C04] @onlyoverlapping forall j in 0..len(result) :: result[j] <= maxBin() && binOverlaps(result[j], beg, end)
 //@   ensures[C16,C04] @alloverlapping forall q uint32 :: q <= maxBin() && binOverlaps(q, beg, end) ==>
 //@       exists j in 0..len(result) :: result[j] == q
+//@   ensures[C16,C04] @allovl forall q uint32 :: ovl(q, beg, end) ==> exists j in 0..len(result) :: result[j] == q
 
 // The unplaced/unmapped convention: BinFor(-1, 0) is the bin 4680 (SAM: reg2bin(-1, 0)).
 //@ lemma[C16] bv unplacedbin: lvlOff(5) - 1 == 4680
@@ -268,3 +271,48 @@ package internal
 //@   ensures[C15] @spanbegin placed ==> i.Refs[recRefID(r)].Stats.Chunk.Begin ==
 //@       ite(recRefID(r) == old(len(i.Refs)) - 1 && old(i.Refs[recRefID(r)].Stats) != nil, old(i.Refs[recRefID(r)].Stats.Chunk.Begin), c.Begin)
 //@   ensures[C15] @unplaced !placed ==> (i.Unmapped != nil && *i.Unmapped == ite(old(i.Unmapped) == nil, 0, old(*i.Unmapped)) + 1)
+
+// Index.Chunks (C04): the query side of the BAI/tabix index, for an index whose
+// bins are in bin order (as ReadIndex delivers it and sort() leaves it).
+//@ spec func binsSorted(bins []Bin) bool = forall a in 0..len(bins) :: forall b in 0..len(bins) :: (a < b ==> bins[a].Bin < bins[b].Bin)
+//@ func Index.sort
+//@   inline
+//@ spec func tileHit(tiles []bgzf.Offset, first int, j int, beg int, end int, ce int64) bool =
+//@     (j == first || tiles[j].File != 0 || tiles[j].Block != 0) && (j + 1) * 16384 >= beg && j * 16384 <= end && ce > voff(tiles[j])
+//@ func Index.Chunks
+//@   mode int
+//@   props C04
+//@   returns separately
+//@   requires i != nil && i.IsSorted && validIv(beg, end)
+//@   requires (0 <= rid && rid < len(i.Refs)) ==> (binsValid(i.Refs[rid].Bins) && binsSorted(i.Refs[rid].Bins) && binsSmall(i.Refs[rid].Bins) &&
+//@       (forall t in 0..len(i.Refs[rid].Intervals) :: okOff(i.Refs[rid].Intervals[t])))
+//@   ghost w map[int]int
+//@   ghost done map[int]bool
+//@   macro got(cc int, k int) bool = 0 <= w[cc * 1048576 + k] && w[cc * 1048576 + k] < len(chunks) && chunks[w[cc * 1048576 + k]] == ref.Bins[cc].Chunks[k]
+//@   macro want(cc int, k int, j int) bool = tileHit(ref.Intervals, iv, j, beg, end, voff(ref.Bins[cc].Chunks[k].End))
+//@   at append#0 ghost w[c * 1048576 + rangeindex1 + 1] = len(dst); done[c * 1048576 + rangeindex1 + 1] = true
+//@   loop 0 invariant @own cap(chunks) == 0 || fresh(chunks)
+//@   loop 0 invariant @done forall cc in 0..len(ref.Bins) :: forall k in 0..len(ref.Bins[cc].Chunks) :: done[cc * 1048576 + k] ==> got(cc, k)
+//@   loop 0 invariant @bins forall t in 0..rangeindex + 1 :: forall cc in 0..len(ref.Bins) :: forall k in 0..len(ref.Bins[cc].Chunks) :: forall j in iv..len(ref.Intervals) ::
+//@       (ref.Bins[cc].Bin == rangeslice[t] && want(cc, k, j)) ==> done[cc * 1048576 + k]
+//@   loop 1 invariant @own cap(chunks) == 0 || fresh(chunks)
+//@   loop 1 invariant @done forall cc in 0..len(ref.Bins) :: forall k in 0..len(ref.Bins[cc].Chunks) :: done[cc * 1048576 + k] ==> got(cc, k)
+//@   loop 1 invariant @bins forall t in 0..rangeindex0 + 1 :: forall cc in 0..len(ref.Bins) :: forall k in 0..len(ref.Bins[cc].Chunks) :: forall j in iv..len(ref.Intervals) ::
+//@       (ref.Bins[cc].Bin == rangeslice0[t] && want(cc, k, j)) ==> done[cc * 1048576 + k]
+//@   loop 1 invariant @chunks forall k in 0..rangeindex + 1 :: forall j in iv..len(ref.Intervals) :: want(c, k, j) ==> done[c * 1048576 + k]
+//@   loop 2 invariant @own cap(chunks) == 0 || fresh(chunks)
+//@   loop 2 invariant @done forall cc in 0..len(ref.Bins) :: forall k in 0..len(ref.Bins[cc].Chunks) :: done[cc * 1048576 + k] ==> got(cc, k)
+//@   loop 2 invariant @bins forall t in 0..rangeindex0 + 1 :: forall cc in 0..len(ref.Bins) :: forall k in 0..len(ref.Bins[cc].Chunks) :: forall j in iv..len(ref.Intervals) ::
+//@       (ref.Bins[cc].Bin == rangeslice0[t] && want(cc, k, j)) ==> done[cc * 1048576 + k]
+//@   loop 2 invariant @chunks forall k in 0..rangeindex1 + 1 :: forall j in iv..len(ref.Intervals) :: want(c, k, j) ==> done[c * 1048576 + k]
+//@   loop 2 invariant @tiles haveNonZero == (rangeindex >= 0) && forall j in iv..iv + rangeindex + 1 :: !want(c, rangeindex1 + 1, j)
+//@   at stmt "if !sort.IsSorted(byBeginOffset(chunks)) {" assert forall cc in 0..len(ref.Bins) :: forall k in 0..len(ref.Bins[cc].Chunks) :: forall j in iv..len(ref.Intervals) ::
+//@       (ovl(ref.Bins[cc].Bin, beg, end) && want(cc, k, j)) ==> done[cc * 1048576 + k]
+//@   at stmt "if !sort.IsSorted(byBeginOffset(chunks)) {" assert forall cc in 0..len(ref.Bins) :: forall k in 0..len(ref.Bins[cc].Chunks) :: forall j in iv..len(ref.Intervals) ::
+//@       (ovl(ref.Bins[cc].Bin, beg, end) && want(cc, k, j)) ==> got(cc, k)
+//@   at stmt "sort.Sort(byBeginOffset(chunks))" assert forall cc in 0..len(ref.Bins) :: forall k in 0..len(ref.Bins[cc].Chunks) :: forall j in iv..len(ref.Intervals) ::
+//@       (ovl(ref.Bins[cc].Bin, beg, end) && want(cc, k, j)) ==> exists m in 0..len(chunks) :: chunks[m] == ref.Bins[cc].Chunks[k]
+//@   ensures[C04] @complete result1 == nil ==> (forall cc in 0..len(i.Refs[rid].Bins) :: forall k in 0..len(i.Refs[rid].Bins[cc].Chunks) :: forall j in div(beg, 16384)..len(i.Refs[rid].Intervals) ::
+//@       (ovl(i.Refs[rid].Bins[cc].Bin, beg, end) &&
+//@        tileHit(i.Refs[rid].Intervals, div(beg, 16384), j, beg, end, voff(i.Refs[rid].Bins[cc].Chunks[k].End))) ==>
+//@       exists m in 0..len(result0) :: result0[m] == i.Refs[rid].Bins[cc].Chunks[k])
